@@ -15,7 +15,7 @@ vars == <<op, vcf, args, segs, ph>>
 Names == <<"S1", "S2", "S3">>
 DefaultArgs == [sk |-> "none", sn |-> "", si |-> 0, nk |-> "none", nn |-> "", ni |-> 0, mind |-> -1,
                 skipsom |-> FALSE, skiprej |-> FALSE, zn |-> 0, zd |-> 0, tboost |-> FALSE, above |-> -1,
-                pn |-> 0, pd |-> 0, src |-> "read"]
+                pn |-> 0, pd |-> 0, src |-> "read", route |-> "fresh"]
 Cl(gt, ad, dp) == [gt |-> gt, ad |-> ad, dp |-> dp]
 Rc(c, pos, ref, alt, filt, som, idp, fad, fdp, calls) ==
     [c |-> c, pos |-> pos, ref |-> ref, alt |-> alt, sym |-> FALSE, svend |-> -1, filt |-> filt, som |-> som,
@@ -134,8 +134,17 @@ InitHets1 ==
 (* ---------------------------------------------------------------- scope "baf": up to 3 variants, fixed ranges *)
 BafSegs == << <<1, 0, 3>>, <<1, 3, 6>>, <<2, 0, 5>> >>
 BafCalls == {Cl(<<0, 1>>, <<3, 1>>, 4), Cl(<<0, 1>>, <<2, 2>>, 4), Cl(<<0, 1>>, <<1, 3>>, 4), Cl(<<1, 1>>, <<0, 4>>, 4)}
-BafOps == {<<"baf", -1, 0, 0>>, <<"baf", 0, 0, 0>>, <<"baf", 1, 0, 0>>, <<"call", -1, 0, 0>>, <<"call", -1, 1, 2>>,
-           <<"mirror", -1, 0, 0>>, <<"mirror", 1, 0, 0>>}
+(* <<op, above_half, purity num, den, construction route of the range / segment table>>; the route changes only the    *)
+(* row index labels of the table handed to the code (fresh 0..n-1 / boolean-mask filtered out of a larger table /      *)
+(* permuted / offset) -- the specification does not look at it: the BAF of a segment depends on its coordinates only   *)
+Routes == {"fresh", "masked", "permuted", "offset"}
+BafOps == IF Tier = "quick"
+          THEN {<<"baf", -1, 0, 0, "masked">>, <<"baf", 0, 0, 0, "permuted">>, <<"baf", 1, 0, 0, "offset">>,
+                <<"mirror", -1, 0, 0, "fresh">>, <<"mirror", 1, 0, 0, "fresh">>, <<"call", -1, 1, 2, "masked">>}
+               \cup {<<"call", -1, 0, 0, rt>> : rt \in Routes}
+          ELSE {<<"mirror", -1, 0, 0, "fresh">>, <<"mirror", 1, 0, 0, "fresh">>}
+               \cup {<<"baf", ab, 0, 0, rt>> : ab \in {-1, 0, 1}, rt \in Routes}
+               \cup {<<"call", -1, 0, 0, rt>> : rt \in Routes} \cup {<<"call", -1, 1, 2, rt>> : rt \in Routes}
 Pick(has, rec) == IF has THEN <<rec>> ELSE <<>>
 InitBaf ==
     \E h1, h2, h3 \in BOOLEAN : \E c1, c2, c3 \in BafCalls : \E ins \in BOOLEAN : \E bo \in BafOps :
@@ -146,7 +155,7 @@ InitBaf ==
                      Pick(h1, Rc(1, 2, "A", "G", <<>>, FALSE, -1, TRUE, TRUE, <<c1>>))
                      \o Pick(h2, Rc(1, 3, "A", IF ins THEN "GTT" ELSE "G", <<>>, FALSE, -1, TRUE, TRUE, <<c2>>))
                      \o Pick(h3, Rc(1, 5, "C", "T", <<>>, FALSE, -1, TRUE, TRUE, <<c3>>)))
-        /\ args = [DefaultArgs EXCEPT !.above = bo[2], !.pn = bo[3], !.pd = bo[4]]
+        /\ args = [DefaultArgs EXCEPT !.above = bo[2], !.pn = bo[3], !.pd = bo[4], !.route = bo[5]]
 
 (* ---------------------------------------------------------------- scope "boost": a pair, TumorBoost *)
 BTN == {<<Cl(<<0, 1>>, <<3, 1>>, 4), Cl(<<0, 1>>, <<2, 2>>, 4)>>, <<Cl(<<0, 1>>, <<1, 3>>, 4), Cl(<<0, 1>>, <<2, 2>>, 4)>>,
